@@ -658,7 +658,7 @@ func (r *run) callAPI(fn func() error) error {
 	select {
 	case err := <-done:
 		return err
-	case <-time.After(1500 * time.Millisecond):
+	case <-time.After(4 * time.Second):
 	}
 	for i := 0; i < 32; i++ {
 		at := r.sched.Where("loop")
@@ -800,19 +800,23 @@ func (r *run) doDeactivate(st step) error {
 		if after.act[c].Activated {
 			r.viol("still-activated-after-deactivate", "deactivate", fmt.Sprintf("DeactivateServiceForSubject(%s) returned %v but GetServiceActivation still says activated", c, apiErr))
 		}
-		// a retraction for every DID that has a live registration in the client's copy of the list
+		// a retraction for every DID that has a live registration on the server which the client's copy of the list knows of
 		for _, d := range didsOfSubject(s) {
 			if !methodOK(svc, d) {
 				continue
 			}
 			e := before.loc[svc+"/"+d]
-			if !e.liveReg(before.now) {
+			if !e.liveReg(before.now) || !before.srv[svc+"/"+d].liveReg(before.now) {
+				// nothing known to retract, or the copy is stale and the registration is gone from the server already
 				continue
 			}
 			r.res.Checks++
 			found := false
 			for _, m := range msgs {
-				if m.Svc == svc && m.VP.Retraction && m.VP.Signer == r.l.ppl.dids[d].did && m.VP.RetractJTI == e.JTI {
+				// naming the registration: the one in the copy, or the one the server lists now (an implementation may
+				// fetch the list before it retracts)
+				if m.Svc == svc && m.VP.Retraction && m.VP.Signer == r.l.ppl.dids[d].did &&
+					(m.VP.RetractJTI == e.JTI || (m.VP.RetractJTI != "" && m.VP.RetractJTI == before.srv[svc+"/"+d].JTI)) {
 					found = true
 				}
 			}
@@ -983,10 +987,14 @@ func (r *run) doRefreshOne(st step) error {
 	rowB, hadRow := before.rows[c]
 	rowA, hasRow := after.rows[c]
 	dueBefore := hadRow && rowB.Next < r.loopNow.Unix()
+	// the outcome class of the loop body, from what the code did (and, where nothing at all was done, from what the
+	// scripted environment makes possible)
 	res := "ok"
 	switch {
-	case len(attempts) == 0 && !hasRow && (hadRow || r.gone[s] || len(r.eligibleDIDs(svc, s)) == 0):
+	case len(attempts) == 0 && !hasRow && (r.gone[s] || len(r.eligibleDIDs(svc, s)) == 0):
 		res = "removed"
+	case len(attempts) == 0 && len(r.eligibleWithCreds(svc, s)) == 0:
+		res = "failed" // no credentials
 	case len(attempts) == 0 && (!hadRow || !dueBefore) && rowA == rowB && before.errs[c] == after.errs[c]:
 		res = "skipped"
 	case accepted == 0:
@@ -1037,10 +1045,10 @@ func (r *run) doRefreshOne(st step) error {
 			r.fails[svc+"/"+d] = failCap
 		}
 		r.pendingRetry[c] = false
-		r.res.Checks++
-		if !r.gone[s] && len(r.eligibleDIDs(svc, s)) > 0 {
-			r.viol("activation-removed", "refresh", fmt.Sprintf("the refresh removed the activation of %s although the subject exists and has a DID the service supports", c))
-		}
+	}
+	r.res.Checks++
+	if _, de := r.deact[c]; hadRow && !hasRow && !de && !r.gone[s] && len(r.eligibleDIDs(svc, s)) > 0 {
+		r.viol("activation-removed", "refresh", fmt.Sprintf("the refresh removed the activation of %s although the subject exists and has a DID the service supports", c))
 	}
 	r.checkTiming(c, before, after, attempts)
 	r.checkIndependent(c, before, after)
@@ -1449,8 +1457,9 @@ func (l *lab) runProbes(in *input) *result {
 					r.viol("refresh-not-before-expiry", "formula", fmt.Sprintf("validity %d s: next_refresh = t+%d, expiry = t+%d", v, next-before, c.VP.Exp-before))
 				}
 			}
-			if c.VP.Exp-before > int64(v) {
-				r.viol("validity-exceeded", "formula", fmt.Sprintf("validity %d s: the presentation expires %d s after it was made", v, c.VP.Exp-before))
+			// (measured from the END of the call: a slow machine must not look like a long validity)
+			if after := time.Now().Unix(); c.VP.Exp-after > int64(v) {
+				r.viol("validity-exceeded", "formula", fmt.Sprintf("validity %d s: the presentation expires %d s after the activation returned", v, c.VP.Exp-after))
 			}
 		}
 	}
